@@ -42,7 +42,7 @@ def nonsym_op(rng, dims, ranks, cplx):
 
 def gen_int_case(rng):
     which = rng.choice(['als', 'als', 'mals'])
-    order = rng.choice([1, 2, 3, 3, 4]) if which == 'als' else rng.choice([2, 3, 3, 4])
+    order = rng.choice([1, 2, 3, 3, 4])           # order 1 with mals: handed to the one-site scheme (F28)
     dims = [rng.randint(1, 2) if order >= 4 else rng.randint(1, 3) for _ in range(order)]
     cplx = rng.random() < 0.35
     A = nonsym_op(rng, dims, rranks(rng, order, 2), cplx)
@@ -60,7 +60,8 @@ def gen_int_case(rng):
         else:
             thr = rng.choice([0, 0.25, 0.5])
             maxr = rng.choice([np.inf, 1, 2])
-            sol = sle.mals(A, x, b, repeats=reps, solver=solver, threshold=thr, max_rank=maxr)
+            sol = sle.mals(A, x, b, repeats=reps, solver=solver, threshold=thr,
+                           max_rank=(np.int64(maxr) if maxr != np.inf and rng.random() < 0.5 else maxr))
     if not unchanged([A, x, b], snap):
         raise AssertionError('solver modified an argument')
     lit = [1 if which == 'als' else 2,
@@ -123,7 +124,7 @@ def side_case(seed):
     dims, cplx, A, b, Am, bv, xs = p
     order = len(dims)
     solver = rng.choice(['solve', 'lu'])
-    which = rng.choice(['als', 'mals']) if order >= 2 else 'als'
+    which = rng.choice(['als', 'mals'])
     clause = rng.choice(['descent', 'fixed', 'fullrank'])
     desc = dict(which=which, dims=dims, complex=cplx, solver=solver, clause=clause)
     run = (lambda g, r, **kw: sle.als(A, g, b, repeats=r, solver=solver)) if which == 'als' else \
@@ -141,6 +142,8 @@ def side_case(seed):
             trunc = False
             if which == 'mals' and rng.random() < 0.3:
                 kw = {'max_rank': rng.randint(1, 2)}
+                if rng.random() < 0.5:
+                    kw['max_rank'] = np.int64(kw['max_rank'])        # NumPy integers are integers
                 trunc = True
                 desc['max_rank'] = kw['max_rank']
             e0 = energy(Am, xs, g)
